@@ -55,6 +55,9 @@ OPS = [
 HIST_OPS = ["A", "B", "C", "D", "E", "G", "I"]
 # metric operations on a grid that registers the X metric at ONE position only (the others are interpolated on demand)
 HIST_METRIC_OPS = ["J", "K", "L", "M"]
+# requests that differ from one another in ONE respect only (target position, operator, default vs explicit shift, input position, keep_coords):
+# what a memo keyed by too little would confuse
+HIST_NEAR_OPS = ["B", "P", "Q", "R", "S", "T", "U", "E", "E2", "V", "V2", "W", "X"]
 
 
 def structures(tier, seed):
@@ -63,6 +66,10 @@ def structures(tier, seed):
     for p, q in itertools.permutations(HIST_OPS, 2):
         out.append({"sid": f"history;{p}-then-{q}", "part": "history", "seq": [p, q]})
     for p, q in itertools.permutations(HIST_METRIC_OPS, 2):
+        out.append({"sid": f"history;{p}-then-{q}", "part": "history", "seq": [p, q]})
+    for p, q in itertools.permutations(HIST_NEAR_OPS, 2):
+        if {p, q} <= set(HIST_OPS):
+            continue
         out.append({"sid": f"history;{p}-then-{q}", "part": "history", "seq": [p, q]})
     for trip in (("J", "K", "M"), ("K", "J", "L"), ("A", "J", "K")):
         out.append({"sid": f"history;{'-then-'.join(trip)}", "part": "history", "seq": list(trip)})
@@ -102,6 +109,19 @@ def run_history(s):
             "E": lambda g: g.cumsum(c, "X", to="left", boundary="fill", fill_value=f3),
             "G": lambda g: g.diff(args["G_v"], "X", to="center", other_component=args["G_o"]),
             "I": lambda g: g.max(c, "Y", boundary=args["I_b"]),
+            "E2": lambda g: g.cumsum(c, "X", to="outer", boundary="fill", fill_value=f3),
+            "V": lambda g: g.apply_as_grid_ufunc(w.userfunc("F", lambda arrs: [list(arrs[0].shape[:-1]) + [dims[X["left"]]]]), c, axis=[("X",)], signature="(Q:center)->(Q:left)",
+                                                 boundary_width={"Q": (1, 0)}, boundary={"X": "extend"}),
+            "V2": lambda g: g.apply_as_grid_ufunc(w.userfunc("F2", lambda arrs: [list(arrs[0].shape[:-1]) + [dims[X["outer"]]]]), c, axis=[("X",)], signature="(Q:center)->(Q:outer)",
+                                                  boundary_width={"Q": (1, 1)}, boundary={"X": "fill"}, fill_value=f2),
+            "W": lambda g: g.derivative(c, "X", to="left", boundary="extend"),
+            "X": lambda g: g.cumint(c, "X", to="left", boundary="fill", fill_value=0.0),
+            "P": lambda g: g.interp(c, "X", to="outer"),
+            "Q": lambda g: g.diff(c, "X"),
+            "R": lambda g: g.diff(u, "X", to="center"),
+            "S": lambda g: g.diff(c, ["X", "Y"], to={"X": "outer", "Y": "left"}),
+            "T": lambda g: g.min(c, "X", to="outer", keep_coords=True),
+            "U": lambda g: g.diff(c, "X", to="outer", boundary="extend"),
             "J": lambda g: g.integrate(u, "X"),
             "K": lambda g: g.integrate(o, "X"),
             "L": lambda g: g.get_metric(o, ("X",)),
@@ -577,6 +597,13 @@ def replay_history(ob):
         "C": lambda g: pad(c, g, boundary_width={"X": (1, 1)}, boundary="periodic"), "D": lambda g: g.interp(c, ["X", "Y"], fill_value=2.25),
         "E": lambda g: g.cumsum(c, "X", to="left", boundary="fill", fill_value=-3.0), "G": lambda g: g.diff(args["G_v"], "X", to="center", other_component=args["G_o"]),
         "I": lambda g: g.max(c, "Y", boundary=args["I_b"]),
+        "E2": lambda g: g.cumsum(c, "X", to="outer", boundary="fill", fill_value=-3.0),
+        "V": lambda g: g.apply_as_grid_ufunc(lambda a: a[..., 1:] - a[..., :-1], c, axis=[("X",)], signature="(Q:center)->(Q:left)", boundary_width={"Q": (1, 0)}, boundary={"X": "extend"}),
+        "V2": lambda g: g.apply_as_grid_ufunc(lambda a: a[..., 1:] + a[..., :-1], c, axis=[("X",)], signature="(Q:center)->(Q:outer)", boundary_width={"Q": (1, 1)}, boundary={"X": "fill"}, fill_value=2.25),
+        "W": lambda g: g.derivative(c, "X", to="left", boundary="extend"), "X": lambda g: g.cumint(c, "X", to="left", boundary="fill", fill_value=0.0),
+        "P": lambda g: g.interp(c, "X", to="outer"), "Q": lambda g: g.diff(c, "X"), "R": lambda g: g.diff(u, "X", to="center"),
+        "S": lambda g: g.diff(c, ["X", "Y"], to={"X": "outer", "Y": "left"}), "T": lambda g: g.min(c, "X", to="outer", keep_coords=True),
+        "U": lambda g: g.diff(c, "X", to="outer", boundary="extend"),
         "J": lambda g: g.integrate(u, "X"), "K": lambda g: g.integrate(o, "X"), "L": lambda g: g.get_metric(o, ("X",)),
         "M": lambda g: g.interp(c, "X", to="outer", metric_weighted=("X",)),
     }
